@@ -569,6 +569,61 @@ static void self_check(void) {
 	if (!ref_hash_computable(RH_SHA256)) vf_harness_error("reference digests unavailable");
 }
 
+/* (3b) a re-pointing call that is REFUSED leaves the service where it was: the next request still goes to the endpoint accepted
+ * before (its transport, its host, its credentials) */
+static const struct { const char *uri; const char *why; } REFUSED_URI[] = {
+	{"ksi+tcp://other.example.test:4444", "TCP endpoint without credentials"},
+	{"ksi+tcp://other.example.test:0", "port 0"},
+	{"ksi://only-user@other.example.test/x", "not judged"},
+	{"ksi+tcp://other.example.test:70000", "port out of range"},
+};
+#define NREFUSED 4
+static void after_refused_case(int prior, int r, int ext) {
+	KSI_CTX *ctx = ku_ctx();
+	KSI_DataHash *hsh = NULL;
+	KSI_AggregationReq *areq = NULL;
+	KSI_ExtendReq *ereq = NULL;
+	KSI_RequestHandle *rh = NULL;
+	KSI_Integer *t0 = NULL;
+	unsigned char imp[RH_MAX_IMPRINT];
+	size_t il = ref_fake_imprint(RH_SHA256, 21, imp);
+	int res, set2, http, tcp, file;
+	if (KSI_DataHash_fromImprint(ctx, imp, il, &hsh) != KSI_OK || KSI_Integer_new(ctx, 1600000000, &t0) != KSI_OK) vf_harness_error("fixtures");
+	g_armed = 1;
+	res = ext ? KSI_CTX_setExtender(ctx, PRIOR_URI[prior], "prior-user", "prior-key") : KSI_CTX_setAggregator(ctx, PRIOR_URI[prior], "prior-user", "prior-key");
+	if (res != KSI_OK) vf_harness_error("prior endpoint refused");
+	set2 = ext ? KSI_CTX_setExtender(ctx, REFUSED_URI[r].uri, NULL, NULL) : KSI_CTX_setAggregator(ctx, REFUSED_URI[r].uri, NULL, NULL);
+	O.impl_calls += 2;
+	if (set2 == KSI_OK) { vf_outcome("after-refused:second-call-accepted"); goto done; }   /* not a refusal: covered by the re-pointing cases */
+	if (ext) { if (KSI_createExtendRequest(ctx, t0, NULL, &ereq) != KSI_OK) vf_harness_error("createExtendRequest"); res = KSI_sendExtendRequest(ctx, ereq, &rh); }
+	else { if (KSI_createSignRequest(ctx, hsh, 0, &areq) != KSI_OK) vf_harness_error("createSignRequest"); res = KSI_sendSignRequest(ctx, areq, &rh); }
+	if (res == KSI_OK) res = KSI_RequestHandle_perform(rh);
+	O.impl_calls += 2;
+	http = O.n_http > 0; tcp = sn_calls > 0; file = O.n_fopen > 0;
+	vf_obs("r=%x tr=%d%d%d url=%s gai=%s:%s fopen=%s", set2, http, tcp, file, O.url, sn_last_host, sn_last_port, O.fpath);
+	switch (prior) {
+		case 1:
+			if (!tcp || http || file || strcmp(sn_last_host, "prior.example.test") != 0 || strcmp(sn_last_port, "3333") != 0)
+				report("refused-call-changed-endpoint", "%s was refused (0x%x) after %s had been accepted: the next request went to http=%d tcp=%d file=%d, resolver '%s:%s', url '%s' instead of the TCP endpoint accepted before", REFUSED_URI[r].uri, set2, PRIOR_URI[prior], http, tcp, file, sn_last_host, sn_last_port, O.url);
+			break;
+		case 2:
+			if (!file || http || tcp || strcmp(O.fpath, "/verif-nonexistent/prior.bin") != 0)
+				report("refused-call-changed-endpoint", "%s was refused (0x%x) after %s had been accepted: the next request went to http=%d tcp=%d file=%d (fopen '%s') instead of the file endpoint accepted before", REFUSED_URI[r].uri, set2, PRIOR_URI[prior], http, tcp, file, O.fpath);
+			break;
+		default:
+			if (!http || tcp || file || strcmp(O.url, prior == 3 ? "http://prior.example.test/p" : "http://prior.example.test:81/q") != 0)
+				report("refused-call-changed-endpoint", "%s was refused (0x%x) after %s had been accepted: the next request went to http=%d tcp=%d file=%d, url '%s', resolver '%s' instead of the HTTP endpoint accepted before", REFUSED_URI[r].uri, set2, PRIOR_URI[prior], http, tcp, file, O.url, sn_last_host);
+			break;
+	}
+	vf_outcome("after-refused:prior-endpoint-checked");
+done:
+	g_armed = 0;
+	KSI_RequestHandle_free(rh);
+	KSI_AggregationReq_free(areq); KSI_ExtendReq_free(ereq);
+	KSI_DataHash_free(hsh); KSI_Integer_free(t0);
+	KSI_CTX_free(ctx);
+}
+
 static void run(void) {
 	ccase c;
 	int nsample = 0;
@@ -643,6 +698,16 @@ static void run(void) {
 		vf_case_end(1);
 	}
 	g_prior = 0;
+	{
+		int pr, r, ext;
+		for (pr = 1; pr < NPRIOR; pr++) for (r = 0; r < NREFUSED; r++) for (ext = 0; ext < 2; ext++) {
+			if (!vf_case_begin("after-refused:pr%d:r%d:%s", pr, r, ext ? "extender" : "aggregator")) continue;
+			reset_seam();
+			after_refused_case(pr, r, ext);
+			vf_count("impl_calls", O.impl_calls);
+			vf_case_end(1);
+		}
+	}
 	/* (4) only one of the two explicit credentials is given: it takes precedence over its embedded counterpart, the other one
 	 * comes from the URI (every scheme spelling, with embedded credentials, every service) */
 	memset(&c, 0, sizeof c);
